@@ -380,13 +380,30 @@ func (e *Exception) writeShortStack(b *bytes.Buffer) {
 	}
 }
 
+// valueString converts the thrown value to a string. For an object this runs script code (toString, valueOf,
+// Proxy traps) which may itself throw; String() and Error() must not panic because of that.
+func (e *Exception) valueString() (s string) {
+	defer func() {
+		if x := recover(); x != nil {
+			switch x.(type) {
+			case *Exception, Value, typeError, referenceError, rangeError, syntaxError, *InterruptedError, *StackOverflowError:
+				// a script-level failure of the conversion
+				s = "[thrown value cannot be converted to a string]"
+			default:
+				panic(x)
+			}
+		}
+	}()
+	return e.val.String()
+}
+
 func (e *Exception) String() string {
 	if e == nil {
 		return "<nil>"
 	}
 	var b bytes.Buffer
 	if e.val != nil {
-		b.WriteString(e.val.String())
+		b.WriteString(e.valueString())
 		b.WriteByte('\n')
 	}
 	e.writeFullStack(&b)
@@ -399,7 +416,7 @@ func (e *Exception) Error() string {
 	}
 	var b bytes.Buffer
 	if e.val != nil {
-		b.WriteString(e.val.String())
+		b.WriteString(e.valueString())
 	}
 	e.writeShortStack(&b)
 	return b.String()
